@@ -447,8 +447,8 @@ Qed.
 Fixpoint pure (i : instr) : bool :=
   match i with
   | IPre _ _ _ _ => false
-  | ICreate _ _ _ _ _ _ => false      (* CREATE is covered by the journal theorem (OReset) and by the correspondence run, not yet by the frame theorems *)
   | ICall _ _ _ _ body => forallb pure body
+  | ICreate _ _ _ _ _ body => forallb pure body      (* the constructor runs any pure code *)
   | _ => true
   end.
 
@@ -460,7 +460,7 @@ Section instr_induction.
   Hypothesis Hbl : forall a, P (IBalance a).
   Hypothesis Hsd : forall b, P (ISelfdestruct b).
   Hypothesis Hcl : forall t v c r body, Forall P body -> P (ICall t v c r body).
-  Hypothesis Hcr : forall ad v c r sc body, P (ICreate ad v c r sc body).
+  Hypothesis Hcr : forall ad v c r sc body, Forall P body -> P (ICreate ad v c r sc body).
   Hypothesis Hpr : forall p v c r, P (IPre p v c r).
   Fixpoint instr_ind' (i : instr) : P i :=
     match i with
@@ -475,10 +475,53 @@ Section instr_induction.
                              | [] => List.Forall_nil P
                              | x :: l' => @List.Forall_cons _ P x l' (instr_ind' x) (go l')
                              end) body)
-    | ICreate ad v c r sc body => Hcr ad v c r sc body
+    | ICreate ad v c r sc body =>
+        Hcr ad v c r sc body ((fix go (l : list instr) : Forall P l :=
+                                 match l with
+                                 | [] => List.Forall_nil P
+                                 | x :: l' => @List.Forall_cons _ P x l' (instr_ind' x) (go l')
+                                 end) body)
     | IPre p v c r => Hpr p v c r
     end.
 End instr_induction.
+
+(** the constructor run of CREATE, named: [cfix] is the local fixpoint of [exec_instr]'s CREATE case *)
+Definition cfix (order : list N) (o : N) :=
+  fix exec_list (l : list instr) (t : N) (s : st) {struct l} : st * outcome :=
+    match l with
+    | [] => (s, Ok)
+    | x :: r => let '(s1, oc) := exec_instr order o t x s in
+                match oc with Ok => exec_list r t s1 | _ => (s1, oc) end
+    end.
+Lemma cfix_eq order o body : forall t s, cfix order o body t s = exec_list order o t body s.
+Proof.
+  induction body as [|x body IH]; intros t s; cbn [cfix exec_list]; [reflexivity|].
+  destruct (exec_instr order o t x s) as [s1 oc]. destruct oc; [apply IH|reflexivity].
+Qed.
+Definition create_run (order : list N) (o t : N) (sc : bool) (body : list instr) (s' : st) : st * outcome :=
+  let '(W', D') := s' in
+  let '(s2, oc) := cfix order o body t (W', reset_obj D' t) in
+  match oc with
+  | Ok => ((fst s2, if sc then set_state (fst s2) (snd s2) t CODE_SLOT 1 else snd s2), Ok)
+  | Fail => (s2, Fail)
+  end.
+Lemma create_run_eq order o t sc body W D :
+  create_run order o t sc body (W, D) =
+  let '(s2, oc) := exec_list order o t body (W, reset_obj D t) in
+  match oc with
+  | Ok => ((fst s2, if sc then set_state (fst s2) (snd s2) t CODE_SLOT 1 else snd s2), Ok)
+  | Fail => (s2, Fail)
+  end.
+Proof. unfold create_run. by rewrite cfix_eq. Qed.
+Lemma exec_create_eq order o self ad v c r sc body W D :
+  exec_instr order o self (ICreate ad v c r sc body) (W, D) =
+  if negb (v =? 0) && (cbal (load W D self) self <? v) then after_call self c r ((W, load W D self), Fail) else
+  let D1 := set_state W (load W D self) self NONCE_SLOT (read_state W (load W D self) self NONCE_SLOT + 1) in
+  match nth_error ad (Z.to_nat (read_state W (load W D self) self NONCE_SLOT)) with
+  | None => after_call self c r ((W, D1), Fail)
+  | Some t => after_call self c r (do_call_gen true order (W, D1) self t v (create_run order o t sc body))
+  end.
+Proof. reflexivity. Qed.
 
 Definition pure_step (W : world) (D : sdb) (r : st * outcome) : Prop :=
   fst (fst r) = W /\ ext W D (snd (fst r)).
@@ -530,107 +573,6 @@ Proof.
     unfold snapshot. fold (jlen D). destruct He as (_ & L & _). lia.
 Qed.
 
-Lemma after_call_pure W D0 self catch rec r :
-  pure_step W D0 r -> pure_step W D0 (after_call self catch rec r).
-Proof.
-  destruct r as [[W1 D1] oc]. intros [HW He]. cbn in HW, He. subst W1. unfold after_call.
-  set (D2 := match rec with Some slot => set_state W D1 self slot _ | None => D1 end).
-  assert (He2 : ext W D0 D2).
-  { unfold D2. destruct rec; [|done]. eapply ext_trans; [exact He|]. apply set_state_ext, He. }
-  destruct (catch || _); by split.
-Qed.
-
-Theorem pure_instr_ext : forall i, pure i = true ->
-  forall order o self W D, wf W D -> pure_step W D (exec_instr order o self i (W, D)).
-Proof.
-  induction i as [k v| | |a|b|t v c r body IH|ad v c r sc body|p v c r] using instr_ind'; intros Hp order o self W D Hwf;
-    cbn [exec_instr].
-  - split; [done|]. by apply set_state_ext.
-  - split; [done|]. by apply add_log_ext.
-  - split; [done|]. by apply ext_refl.
-  - split; [done|]. cbn. rewrite load_id by done. by apply ext_refl.
-  - rewrite load_id by done. destruct (objs D !! self) as [os|]; [|split; [done|by apply ext_refl]].
-    split; [done|]. cbn [fst snd]. eapply ext_trans; [by apply add_bal_ext|]. apply suicide_ext. by apply add_bal_ext.
-  - cbn [pure] in Hp. apply after_call_pure. apply do_call_pure; [done|].
-    intros D1 Hwf1. destruct (N.leb 2 t && N.leb t 4); [|split; [done|by apply ext_refl]].
-    clear Hwf D. revert D1 Hwf1.
-    induction body as [|x body IHb]; intros D1 Hwf1; [split; [done|by apply ext_refl]|].
-    cbn [forallb] in Hp. apply andb_prop in Hp as [Hpx Hpb].
-    inversion IH as [|? ? IHx IHrest]; subst.
-    apply (pure_step_seq W D1 (exec_instr order o t x (W, D1))).
-    + by apply IHx.
-    + intros D2 Hwf2. by apply IHb.
-  - discriminate.
-  - discriminate.
-Qed.
-
-Lemma pure_list_ext order o self W : forall body, forallb pure body = true ->
-  forall D, wf W D -> pure_step W D (exec_list order o self body (W, D)).
-Proof.
-  induction body as [|x body IH]; intros Hp D Hwf; cbn [exec_list]; [split; [done|by apply ext_refl]|].
-  cbn [forallb] in Hp. apply andb_prop in Hp as [Hpx Hpb].
-  apply (pure_step_seq W D (exec_instr order o self x (W, D))).
-  - by apply pure_instr_ext.
-  - intros D2 Hwf2. by apply IH.
-Qed.
-
-(** a call into pure code that fails leaves no trace: the Cosmos side is
-    untouched and the cache is observationally what it was *)
-Theorem pure_failed_call_no_trace order o W D caller t value body :
-  wf W D -> forallb pure body = true ->
-  let r := do_call order (W, D) caller t value (exec_list order o t body) in
-  snd r = Fail -> fst (fst r) = W /\ obs_eq W (snd (fst r)) D.
-Proof.
-  intros Hwf Hp r Hfail.
-  destruct (do_call_pure order W D caller t value (exec_list order o t body) Hwf) as [[HW _] Hobs].
-  { intros D1 Hwf1. by apply pure_list_ext. }
-  split; [exact HW|]. by apply Hobs.
-Qed.
-
-(** * the same with CREATE: every call tree of value transfers, storage writes, logs, self-destructs, reverts and
-    contract creations (constructors running any such code) is a clean journal extension — whatever an enclosing frame
-    reverts to, the cache is restored observationally.  [purec] = no precompile call anywhere. *)
-Fixpoint purec (i : instr) : bool :=
-  match i with
-  | IPre _ _ _ _ => false
-  | ICall _ _ _ _ body => forallb purec body
-  | ICreate _ _ _ _ _ body => forallb purec body
-  | _ => true
-  end.
-
-Section instr_induction_c.
-  Variable P : instr -> Prop.
-  Hypothesis Hst : forall k v, P (ISStore k v).
-  Hypothesis Hlg : P ILog.
-  Hypothesis Hrv : P IRevert.
-  Hypothesis Hbl : forall a, P (IBalance a).
-  Hypothesis Hsd : forall b, P (ISelfdestruct b).
-  Hypothesis Hcl : forall t v c r body, Forall P body -> P (ICall t v c r body).
-  Hypothesis Hcr : forall ad v c r sc body, Forall P body -> P (ICreate ad v c r sc body).
-  Hypothesis Hpr : forall p v c r, P (IPre p v c r).
-  Fixpoint instr_indc (i : instr) : P i :=
-    match i with
-    | ISStore k v => Hst k v
-    | ILog => Hlg
-    | IRevert => Hrv
-    | IBalance a => Hbl a
-    | ISelfdestruct b => Hsd b
-    | ICall t v c r body =>
-        Hcl t v c r body ((fix go (l : list instr) : Forall P l :=
-                             match l with
-                             | [] => List.Forall_nil P
-                             | x :: l' => @List.Forall_cons _ P x l' (instr_indc x) (go l')
-                             end) body)
-    | ICreate ad v c r sc body =>
-        Hcr ad v c r sc body ((fix go (l : list instr) : Forall P l :=
-                                 match l with
-                                 | [] => List.Forall_nil P
-                                 | x :: l' => @List.Forall_cons _ P x l' (instr_indc x) (go l')
-                                 end) body)
-    | IPre p v c r => Hpr p v c r
-    end.
-End instr_induction_c.
-
 (** Call / Create around a callee that is itself a clean extension ([force] as in [do_call_gen]) *)
 Lemma do_call_gen_pure force order W D caller target value run :
   wf W D -> (forall D1, wf W D1 -> pure_step W D1 (run (W, D1))) ->
@@ -662,18 +604,39 @@ Proof.
   - split; [reflexivity|]. apply ext_revert; [done|]. unfold snapshot. fold (jlen D). destruct He as (_ & L & _). lia.
 Qed.
 
-Theorem purec_instr_ext : forall i, purec i = true ->
+Lemma after_call_pure W D0 self catch rec r :
+  pure_step W D0 r -> pure_step W D0 (after_call self catch rec r).
+Proof.
+  destruct r as [[W1 D1] oc]. intros [HW He]. cbn in HW, He. subst W1. unfold after_call.
+  set (D2 := match rec with Some slot => set_state W D1 self slot _ | None => D1 end).
+  assert (He2 : ext W D0 D2).
+  { unfold D2. destruct rec; [|done]. eapply ext_trans; [exact He|]. apply set_state_ext, He. }
+  destruct (catch || _); by split.
+Qed.
+
+(** from the induction hypothesis on the instructions of a body to the body as a list *)
+Lemma forall_list_ext order o W body :
+  Forall (fun i => pure i = true -> forall order o self W D, wf W D -> pure_step W D (exec_instr order o self i (W, D))) body ->
+  forallb pure body = true -> forall t D, wf W D -> pure_step W D (exec_list order o t body (W, D)).
+Proof.
+  induction body as [|x body IHb]; intros IH Hp t D Hwf; cbn [exec_list]; [split; [done|by apply ext_refl]|].
+  cbn [forallb] in Hp. apply andb_prop in Hp as [Hpx Hpb]. inversion IH as [|? ? IHx IHrest]; subst.
+  apply (pure_step_seq W D (exec_instr order o t x (W, D))).
+  - by apply IHx.
+  - intros D2 Hwf2. by apply IHb.
+Qed.
+
+Theorem pure_instr_ext : forall i, pure i = true ->
   forall order o self W D, wf W D -> pure_step W D (exec_instr order o self i (W, D)).
 Proof.
-  induction i as [k v| | |a|b|t v c r body IH|ad v c r sc body IH|p v c r] using instr_indc; intros Hp order o self W D Hwf;
-    cbn [exec_instr].
-  - split; [done|]. by apply set_state_ext.
-  - split; [done|]. by apply add_log_ext.
-  - split; [done|]. by apply ext_refl.
-  - split; [done|]. cbn. rewrite load_id by done. by apply ext_refl.
-  - rewrite load_id by done. destruct (objs D !! self) as [os|]; [|split; [done|by apply ext_refl]].
+  induction i as [k v| | |a|b|t v c r body IH|ad v c r sc body IH|p v c r] using instr_ind'; intros Hp order o self W D Hwf.
+  - cbn [exec_instr]. split; [done|]. by apply set_state_ext.
+  - cbn [exec_instr]. split; [done|]. by apply add_log_ext.
+  - cbn [exec_instr]. split; [done|]. by apply ext_refl.
+  - cbn [exec_instr]. split; [done|]. cbn. rewrite load_id by done. by apply ext_refl.
+  - cbn [exec_instr]. rewrite load_id by done. destruct (objs D !! self) as [os|]; [|split; [done|by apply ext_refl]].
     split; [done|]. cbn [fst snd]. eapply ext_trans; [by apply add_bal_ext|]. apply suicide_ext. by apply add_bal_ext.
-  - cbn [purec] in Hp. apply after_call_pure. apply (do_call_gen_pure false); [done|].
+  - cbn [exec_instr]. cbn [pure] in Hp. apply after_call_pure. apply (do_call_gen_pure false); [done|].
     intros D1 Hwf1. destruct (N.leb 2 t && N.leb t 4); [|split; [done|by apply ext_refl]].
     clear Hwf D. revert D1 Hwf1.
     induction body as [|x body IHb]; intros D1 Hwf1; [split; [done|by apply ext_refl]|].
@@ -683,50 +646,19 @@ Proof.
     + by apply IHx.
     + intros D2 Hwf2. by apply IHb.
   - (* CREATE *)
-    cbn [purec] in Hp. rewrite !(load_id _ _ _ Hwf).
+    cbn [pure] in Hp. rewrite exec_create_eq. rewrite !(load_id _ _ _ Hwf).
     destruct (negb (v =? 0) && (cbal D self <? v)).
     { apply after_call_pure. split; [done|by apply ext_refl]. }
     pose proof (set_state_ext W D self NONCE_SLOT (read_state W D self NONCE_SLOT + 1) Hwf) as Hen.
-    set (D1 := set_state W D self NONCE_SLOT (read_state W D self NONCE_SLOT + 1)) in *.
+    cbv zeta. set (D1 := set_state W D self NONCE_SLOT (read_state W D self NONCE_SLOT + 1)) in *.
     destruct (nth_error ad (Z.to_nat (read_state W D self NONCE_SLOT))) as [t|].
     2:{ apply after_call_pure. split; [done|exact Hen]. }
     apply after_call_pure.
-    assert (Hstep : pure_step W D1 (do_call_gen true order (W, D1) self t v
-       (fun s' => let '(W', D') := s' in
-                  let s1 := (W', reset_obj D' t) in
-                  let '(s2, oc) := (fix exec_list (l : list instr) (t0 : N) (s : st) {struct l} : st * outcome :=
-                                      match l with
-                                      | [] => (s, Ok)
-                                      | x :: r0 => let '(s3, oc0) := exec_instr order o t0 x s in
-                                                   match oc0 with Ok => exec_list r0 t0 s3 | Fail => (s3, oc0) end
-                                      end) body t s1 in
-                  match oc with
-                  | Ok => ((fst s2, if sc then set_state (fst s2) (snd s2) t CODE_SLOT 1 else snd s2), Ok)
-                  | Fail => (s2, Fail)
-                  end))).
-    { apply do_call_gen_pure; [apply Hen|]. intros D2 Hwf2. cbv beta iota zeta.
+    assert (Hstep : pure_step W D1 (do_call_gen true order (W, D1) self t v (create_run order o t sc body))).
+    { apply do_call_gen_pure; [apply Hen|]. intros D2 Hwf2. rewrite create_run_eq.
       pose proof (reset_ext W D2 t Hwf2) as Her.
-      assert (Hbody : forall Dx, wf W Dx ->
-                pure_step W Dx ((fix exec_list (l : list instr) (t0 : N) (s : st) {struct l} : st * outcome :=
-                                   match l with
-                                   | [] => (s, Ok)
-                                   | x :: r0 => let '(s3, oc0) := exec_instr order o t0 x s in
-                                                match oc0 with Ok => exec_list r0 t0 s3 | Fail => (s3, oc0) end
-                                   end) body t (W, Dx))).
-      { clear Her Hwf2 D2 Hen D1 Hwf D.
-        induction body as [|x body IHb]; intros Dx Hwfx; [split; [done|by apply ext_refl]|].
-        cbn [forallb] in Hp. apply andb_prop in Hp as [Hpx Hpb].
-        inversion IH as [|? ? IHx IHrest]; subst.
-        apply (pure_step_seq W Dx (exec_instr order o t x (W, Dx))).
-        + by apply IHx.
-        + intros D3 Hwf3. by apply IHb. }
-      destruct (Hbody (reset_obj D2 t) (proj1 Her)) as [HWb Heb].
-      destruct ((fix exec_list (l : list instr) (t0 : N) (s : st) {struct l} : st * outcome :=
-                   match l with
-                   | [] => (s, Ok)
-                   | x :: r0 => let '(s3, oc0) := exec_instr order o t0 x s in
-                                match oc0 with Ok => exec_list r0 t0 s3 | Fail => (s3, oc0) end
-                   end) body t (W, reset_obj D2 t)) as [[Wb Db] ocb].
+      destruct (forall_list_ext order o W body IH Hp t (reset_obj D2 t) (proj1 Her)) as [HWb Heb].
+      destruct (exec_list order o t body (W, reset_obj D2 t)) as [[Wb Db] ocb].
       cbn [fst snd] in HWb, Heb. subst Wb.
       assert (He2 : ext W D2 Db) by (eapply ext_trans; eauto).
       destruct ocb; unfold pure_step; cbn [fst snd].
@@ -735,3 +667,30 @@ Proof.
     destruct Hstep as [HWs Hes]. split; [exact HWs|]. eapply ext_trans; [exact Hen|exact Hes].
   - discriminate.
 Qed.
+
+Lemma pure_list_ext order o self W : forall body, forallb pure body = true ->
+  forall D, wf W D -> pure_step W D (exec_list order o self body (W, D)).
+Proof.
+  induction body as [|x body IH]; intros Hp D Hwf; cbn [exec_list]; [split; [done|by apply ext_refl]|].
+  cbn [forallb] in Hp. apply andb_prop in Hp as [Hpx Hpb].
+  apply (pure_step_seq W D (exec_instr order o self x (W, D))).
+  - by apply pure_instr_ext.
+  - intros D2 Hwf2. by apply IH.
+Qed.
+
+(** a call into pure code that fails leaves no trace: the Cosmos side is
+    untouched and the cache is observationally what it was *)
+Theorem pure_failed_call_no_trace order o W D caller t value body :
+  wf W D -> forallb pure body = true ->
+  let r := do_call order (W, D) caller t value (exec_list order o t body) in
+  snd r = Fail -> fst (fst r) = W /\ obs_eq W (snd (fst r)) D.
+Proof.
+  intros Hwf Hp r Hfail.
+  destruct (do_call_pure order W D caller t value (exec_list order o t body) Hwf) as [[HW _] Hobs].
+  { intros D1 Hwf1. by apply pure_list_ext. }
+  split; [exact HW|]. by apply Hobs.
+Qed.
+
+(** [pure] includes CREATE (constructors running any pure code); the older names are kept *)
+Notation purec := pure (only parsing).
+Definition purec_instr_ext := pure_instr_ext.
